@@ -139,7 +139,7 @@ type Stmt struct {
 // ParseQuery parses the program text. perr: parser error requested; zero: no statements.
 func ParseQuery(q string) (stmts []Stmt, perr bool, ok bool) {
 	q = strings.TrimSpace(q)
-	if q == "#perr" {
+	if q == "#perr" || q == "#peof" {
 		return nil, true, true
 	}
 	if q == "#zero" {
@@ -191,6 +191,9 @@ func (r *Rec) ParseFn() wire.ParseFn {
 			return nil, fmt.Errorf("harness: not a program: %q", query)
 		}
 		if perr {
+			if strings.TrimSpace(query) == "#peof" {
+				return nil, fmt.Errorf("unexpected end of input: %w", io.EOF) // a parser error that happens to wrap io.EOF
+			}
 			return nil, ErrParser
 		}
 		var out wire.PreparedStatements
@@ -253,6 +256,20 @@ func (r *Rec) statement(i int, st Stmt, query string) *wire.PreparedStatement {
 				}
 				if op == "U" && n > 0 {
 					vals[n-1] = Unencodable{}
+				}
+				opErr = w.Row(vals)
+				if opErr == nil {
+					rows++
+				}
+			case strings.HasPrefix(op, "R") && len(op) > 1:
+				// "R6400": a row whose last value is 6400 bytes long (the other values are short)
+				size, _ := strconv.Atoi(op[1:])
+				vals := make([]any, 0, st.NCols)
+				for c := 0; c < st.NCols; c++ {
+					vals = append(vals, fmt.Sprintf("r%dc%d", rows, c))
+				}
+				if st.NCols > 0 {
+					vals[st.NCols-1] = strings.Repeat("v", size)
 				}
 				opErr = w.Row(vals)
 				if opErr == nil {
